@@ -51,7 +51,9 @@ def end_forms(start):
     if not is_d(start):
         forms += [("end", start + timedelta(hours=2)), ("dur90m", timedelta(minutes=90))]
     else:
-        forms += [("end", start + timedelta(days=2))]
+        forms += [("end", start + timedelta(days=2)), ("end", start + one)]
+    # an explicit end EQUAL to the start (a zero-length component as written) is the end: nothing is added to it
+    forms += [("end", start)]
     return forms
 
 
